@@ -103,7 +103,8 @@ class Ctx:
         for sig, what in sorted(self.known_hits.items()):
             print('KNOWN-FINDING: property=%s %s: %s' % (self.prop, sig, self.known[sig].get('what', what)))
         seen = set()
-        os.makedirs(os.path.join(VERIF, 'replays', self.prop), exist_ok=True)
+        rdir = os.path.join('/tmp/verif_mut_replays' if os.environ.get('VERIF_NO_EVIDENCE') else os.path.join(VERIF, 'replays'), self.prop)
+        os.makedirs(rdir, exist_ok=True)
         for sig, what, replay in self.violations:
             if sig in seen:
                 continue
@@ -112,7 +113,7 @@ class Ctx:
             body = json.dumps({'property': self.prop, 'signature': sig, 'what': what, 'replay': replay,
                                'seed': self.seed, 'tier': self.tier}, indent=1, default=str)
             h = hashlib.sha1(body.encode()).hexdigest()[:12]
-            path = os.path.join(VERIF, 'replays', self.prop, h + '.json')
+            path = os.path.join(rdir, h + '.json')
             with open(path, 'w') as f:
                 f.write(body)
             print('VIOLATION property=%s replay=%s' % (self.prop, path))
@@ -139,9 +140,10 @@ class Ctx:
             'wall_s': round(wall, 2),
             'violations': len(seen),
         }
-        os.makedirs(os.path.join(VERIF, 'evidence'), exist_ok=True)
-        with open(os.path.join(VERIF, 'evidence', self.prop + '.json'), 'w') as f:
-            json.dump(ev, f, indent=1, default=str)
+        if not os.environ.get('VERIF_NO_EVIDENCE'):
+            os.makedirs(os.path.join(VERIF, 'evidence'), exist_ok=True)
+            with open(os.path.join(VERIF, 'evidence', self.prop + '.json'), 'w') as f:
+                json.dump(ev, f, indent=1, default=str)
         shutil.rmtree(self.workdir, ignore_errors=True)
         print('%s %s: tier=%s seed=%d states=%d transitions=%d impl_traces=%d known=%d violations=%d wall=%.1fs'
               % (self.prop, 'FAIL' if rc else 'ok', self.tier, self.seed, self.states, self.transitions,
